@@ -5,7 +5,7 @@ Tie: differential of the real CspSolver / BitSet<64,-16> against the compiled Le
 line (verdict, returned assignment, getNumNodes(), domains after arc consistency), and the property's own predicate
 evaluated on the implementation's output by an independent Python oracle (exhaustive DFS for small systems, arc
 consistency + minimal assignment -- exact for difference constraints -- for the rest)."""
-import itertools, os, random
+import itertools, os, random, subprocess, time
 from multiprocessing import Pool
 import vlib
 
@@ -223,6 +223,9 @@ def gen_random(r, node_cap, many_cons=False):
         if many_cons and op == "Q" and made + 2 > ncons: op = "L"
         extra.append((op, a, b, offs_for(op, a, b)))
         made += 2 if op == "Q" else 1
+    if r.random() < 0.04:             # a self-loop that no value satisfies: found by one pruning pass or by the search only
+        v = r.randrange(n); k = r.randrange(1, 4)
+        extra.append(("L", v, v, -k) if r.random() < 0.5 else ("G", v, v, k))
     for _ in range(spoil):            # push one constraint / tightening just past the hidden assignment
         idx = [i for i, e in enumerate(extra) if e[0] in "LGmM"]
         if not idx: break
@@ -263,6 +266,43 @@ def shrink_to_cap(r, calls, node_cap):
         cut = vs[r.randrange(1, len(vs))]
         calls = calls + [("m", v, cut) if r.random() < 0.5 else ("M", v, cut - 1)]
     return calls
+
+
+def gen_thrash(r, node_cap):
+    """Systems on which the real search has to work.  Arc consistency is complete for difference constraints (if no
+    domain empties, the vector of minima is a solution), so the search only backtracks (a) behind a self-loop, which the
+    work list does not re-queue on itself, (b) behind an empty initial domain that no constraint touches, (c) when the
+    value preferences steer it away from the minima / maxima (alternating SMALL / LARGE along a chain)."""
+    k = r.randrange(1, 6)
+    calls, val = [], []
+    for _ in range(k):
+        lo = r.randrange(LO, HI - 8); hi = lo + r.randrange(1, 9)
+        calls.append(("V", r.randrange(4), lo, hi)); val.append(r.randrange(lo, hi + 1))
+    for _ in range(r.randrange(0, 2 * k)):
+        a, b = r.randrange(k), r.randrange(k)
+        if a == b: continue
+        op = r.choice("LG")
+        d = val[a] - val[b]
+        calls.append((op, a, b, d + r.randrange(0, 4) if op == "L" else d - r.randrange(0, 4)))
+    g = r.random()
+    lo = r.randrange(LO, HI - 12); hi = lo + r.randrange(4, 12)
+    x = k
+    if g < 0.4:       # a self-loop no value satisfies, on a domain too wide for one pruning pass
+        calls += [("V", r.randrange(4), lo, hi), ("L", x, x, -1) if r.random() < 0.5 else ("G", x, x, 1)]
+    elif g < 0.6:     # an empty domain behind the free variables
+        calls += [("V", r.randrange(4), hi, lo)] if r.random() < 0.5 else [("V", r.randrange(4), lo, hi), ("m", x, hi), ("M", x, hi - 1)]
+    else:             # zig-zag: chain v0 < v1 < ... with alternating / random preferences (solvable, needs backtracking)
+        m = r.randrange(3, 7)
+        lo = r.randrange(LO, HI - m - 6); hi = lo + m + r.randrange(0, 5)
+        calls = []
+        for i in range(m):
+            calls.append(("V", r.choice([i % 2, 1 - i % 2, r.randrange(4), 3 if i % 2 else 2]), lo, hi))
+        order = list(range(m))
+        if r.random() < 0.5: r.shuffle(order)
+        for a, b in zip(order, order[1:]):
+            calls.append(("L", a, b, -1) if r.random() < 0.7 else ("G", b, a, 1))
+        if r.random() < 0.3: calls.append((r.choice("EO"), r.randrange(m)))
+    return shrink_to_cap(r, calls, node_cap)
 
 
 def gen_contract(r):
@@ -535,7 +575,8 @@ def worker(job):
         if kind == "random": c = gen_random(r, node_cap)
         elif kind == "manycons": c = gen_random(r, node_cap, many_cons=True)
         elif kind == "kernel": c = gen_kernel(r, node_cap)
-        elif kind == "contract": c = gen_contract(r)
+        elif kind == "thrash": c = gen_thrash(r, node_cap)
+        elif kind == "contract": c = gen_contract(r) if len(systems) % 50 else []     # [] = solve() on a solver without variables
         elif kind == "prefs":
             base = gen_random(r, node_cap) if r.random() < 0.6 else gen_kernel(r, node_cap)
             vs = pref_variants(r, base)
@@ -550,9 +591,23 @@ def worker(job):
                   "csp V 0 1 6 L 0 0 +1", "csp V 0 1 6 L 0 0 1_0", "csp v 0 1 6", "bs", "bs min", "bs min 12", "bs frob 0x1",
                   "bs get 0x1", "bs get 0x1 1 2", "bs pick 0x1 4", "bs pick 0x1 -1", "bs min 0x10000000000000000"]
         systems += [None] * (len(lines) - len(systems))
-    rc1, out1, err1 = vlib.run_lines(bins[0], lines, timeout=1800)
-    rc2, out2, err2 = vlib.run_lines(bins[1], lines, timeout=1800)
     res = {"kind": kind, "n": len(lines), "viol": [], "hist": {}, "nontrivial": 0, "sample": None, "nodes": 0}
+    budget = 60 + count * max(node_cap, 100) // 20000      # generous: the generators bound every search tree by node_cap
+    for which, b in (("implementation", bins[0]), ("model", bins[1])):
+        try:
+            r = vlib.run_lines(b, lines, timeout=budget)
+        except subprocess.TimeoutExpired:
+            # find one line that does not come back (each correct search tree has at most node_cap nodes)
+            slow, t0 = None, time.time()
+            for l in lines:
+                if time.time() - t0 > 120: break
+                try: vlib.run_lines(b, [l], timeout=10)
+                except subprocess.TimeoutExpired: slow = l; break
+            res["viol"].append(("timeout", f"the {which} does not answer within 10 s on a system whose search tree is bounded by {node_cap} nodes "
+                                f"when arc consistency and search are as modelled", [slow] if slow else lines[:3], "", True))
+            return res
+        if which == "implementation": rc1, out1, err1 = r
+        else: rc2, out2, err2 = r
     if rc1 != 0 or len(out1) != len(lines):
         k = min(len(out1), len(lines) - 1)
         res["viol"].append(("impl-crash", f"implementation harness died (rc={rc1}) after {len(out1)} of {len(lines)} lines", [lines[k]], err1[-1500:], False))
@@ -572,8 +627,9 @@ def worker(job):
             res["hist"][rep["kind"]] = res["hist"].get(rep["kind"], 0) + 1
             res["nodes"] += rep.get("nodes", 0)
         for msg in bad[:1]:
-            res["viol"].append(("property-predicate", msg, [lines[i]], o, False))
-        if o != out2[i] and not bad and len(res["viol"]) < 5:
+            if sum(1 for v in res["viol"] if v[0] == "property-predicate") < 5:
+                res["viol"].append(("property-predicate", msg, [lines[i]], o, False))
+        if o != out2[i] and not bad and sum(1 for v in res["viol"] if v[0] == "correspondence") < 3:
             res["viol"].append(("correspondence", f"model and implementation disagree: impl `{o[:200]}` model `{out2[i][:200]}`", [lines[i]], o, True))
     for (a, b) in groups:
         verdicts = {parse_reply(o)["kind"].split("-")[0] for o in out1[a:b]}
@@ -636,7 +692,7 @@ def run(ctx):
     vlib.lean_obligations(ctx)
     ctx.cov["rule"] = ("one line = one whole CspSolver life (building calls + solve). random: 1..10 variables, ranges inside [-16,47] (rank-like, window-edge, empty, "
                        "fixed), parity, min/max tightenings, 0..25 constraints LE/GE/EQ with small / window-crossing / huge offsets, cycles, chains, self-loops, "
-                       "interleaved call order; manycons: 60..192 constraints; kernel: systems shaped like ExtProofKernel::findExtKernel; prefs: the same system under "
+                       "interleaved call order; thrash: self-loops / empty domains behind free variables and zig-zag preference chains (the search must backtrack); manycons: 60..192 constraints; kernel: systems shaped like ExtProofKernel::findExtKernel; prefs: the same system under "
                        "6 preference assignments; contract: calls outside the API contract and malformed lines; bitset: BitSet<64,-16> primitives on a boundary grid. "
                        "distinct = distinct lines; nontrivial = systems with at least one constraint")
     ctx.assumptions += ["int is 32 bits (offset limit cMax = 2^31-48 keeps every int expression of the solver in range; proved for the model: Props.C20.no_int_overflow)",
@@ -645,10 +701,10 @@ def run(ctx):
                         "BitUtil::firstBit/lastBit/bitCount are tied to the model's lowest/highest/card by the exhaustive single-bit + boundary differential only"]
     run_bitset(ctx, quick)
     if quick:
-        plan = [("random", 50, 400, 1500), ("kernel", 8, 300, 1500), ("prefs", 8, 50, 1000), ("manycons", 3, 150, 800), ("contract", 2, 300, 0)]
+        plan = [("random", 50, 400, 1500), ("thrash", 4, 100, 3000), ("kernel", 8, 300, 1500), ("prefs", 8, 50, 1000), ("manycons", 3, 150, 800), ("contract", 2, 300, 0)]
         brute_limit, procs = 3000, 4
     else:
-        plan = [("random", 480, 2500, 20000), ("kernel", 120, 1500, 20000), ("prefs", 60, 300, 5000), ("manycons", 24, 500, 5000), ("contract", 12, 1500, 0)]
+        plan = [("random", 480, 2500, 20000), ("thrash", 48, 500, 30000), ("kernel", 120, 1500, 20000), ("prefs", 60, 300, 5000), ("manycons", 24, 500, 5000), ("contract", 12, 1500, 0)]
         brute_limit, procs = 30000, 12
     jobs = []
     for kind, chunks, count, cap in plan:
@@ -660,7 +716,7 @@ def run(ctx):
         for kind, chunks, count, cap in plan:
             for _ in range(max(1, chunks // 8)):
                 jobs.append((ctx.rng.getrandbits(60), kind, count, min(cap, 3000), brute_limit, "asan", abins))
-    hist, nodes, total = {}, 0, {}
+    hist, nodes, total, allviol = {}, 0, {}, []
     with Pool(procs) as pool:
         for res in pool.imap_unordered(worker, jobs):
             ctx.count(res["n"]); total[res["kind"]] = total.get(res["kind"], 0) + res["n"]
@@ -668,12 +724,18 @@ def run(ctx):
             nodes += res["nodes"]
             for k, v in res["hist"].items(): hist[k] = hist.get(k, 0) + v
             if res["sample"] and total[res["kind"]] == res["n"]: ctx.sample(res["sample"])
-            for (vk, msg, inp, o, no_input) in res["viol"][:3]:
-                if len(ctx.violations) >= 8: break
-                rp = {"kind": vk, "tie": "csp-" + res["kind"], "input": inp, "impl_output": o}
-                if vk == "correspondence":
-                    rp["theorem_scope"] = "Props/C20.lean solve_sound/solve_complete (the model they are about no longer corresponds to cspsolver.cpp)"
-                ctx.violation(msg, rp, no_input=no_input)
+            allviol += [(res["kind"],) + v for v in res["viol"]]
+    # failing inputs (property predicate) first, then pure model/implementation disagreements
+    allviol.sort(key=lambda v: (v[5], v[1] != "property-predicate"))
+    for (kind, vk, msg, inp, o, no_input) in allviol[:6]:
+        rp = {"kind": vk, "tie": "csp-" + kind, "input": inp, "impl_output": o}
+        if vk == "correspondence":
+            rp["theorem_scope"] = "Props/C20.lean solve_sound/solve_complete (the model they are about no longer corresponds to cspsolver.cpp)"
+        ctx.violation(msg, rp, no_input=no_input)
+    if allviol:
+        hv = {}
+        for v in allviol: hv[v[1]] = hv.get(v[1], 0) + 1
+        ctx.log(f"violations by kind (at most 6 recorded): {hv}")
     for k, v in total.items():
         ctx.tie("csp-" + k, kind="differential (C++ harness vs compiled Lean model) + independent Python oracle on the implementation's replies", lines=v)
     ctx.tie("csp-verdicts", histogram=hist, search_nodes_total=nodes)
